@@ -385,10 +385,12 @@ impl Formatter {
         self.writer.write(&nt.name);
         self.writer.write(" = newtype ");
         self.format_type(&nt.underlying.node);
-        self.writer.newline();
 
-        // Methods if any
-        if !nt.methods.is_empty() {
+        // Methods if any: the body is a block, introduced by `:` like every other block
+        if nt.methods.is_empty() {
+            self.writer.newline();
+        } else {
+            self.writer.writeln(":");
             self.writer.indent();
             for method in &nt.methods {
                 self.writer.newline();
